@@ -99,7 +99,11 @@ class Scenario:
             self.queries += 1
             self.solver_time += r.t
         if r.status == 'unsat':
-            return self._rec(name, 'real', 'unsat', r.t, h=goal.hash() if not z3.is_false(goal) else 0, trivial=(r.detail == 'trivial'))
+            xc = None
+            if r.detail != 'trivial' and r.t > 0.002:
+                xc = R.xcheck(fs)
+            kw = {'xcheck': xc} if xc else {}
+            return self._rec(name, 'real', 'unsat', r.t, h=goal.hash() if not z3.is_false(goal) else 0, trivial=(r.detail == 'trivial'), **kw)
         if r.status == 'unknown':
             m = self.witness_search(fs[:-1], a, rhs)
             if m is None:
